@@ -67,6 +67,13 @@ def r1_conservation(ctx):
             if pushes and all(must_pass(b, st, rets, pushes) for st in start):
                 ctx.ok(rule, [b.id, "freed"], "released slot is pushed onto free_list on every path", r.loc(),
                        sample={"in": b.id, "remove": r.loc(), "push_blocks": sorted(pushes)})
+            elif "u32" in ret_ty and b.rec.get("pub"):
+                # free_list and key_map are private: a caller outside the type can neither free nor re-use the slot it is handed
+                escaping.append(b)
+                ctx.bad(rule, [b.id, "public-escape"],
+                        "%s is public, removes a key from key_map and hands the freed slot index to its caller without pushing it onto free_list: "
+                        "free_list is private, so no outside caller can return the slot - every such call shrinks the tracker's capacity for good "
+                        "(capacity 1: touch a; evict; touch b fails)" % b.id, r.loc())
             elif "u32" in ret_ty:
                 # hands the slot to the caller on the paths that do not push
                 escaping.append(b)
@@ -199,6 +206,9 @@ def r3_checkpoint_whole_table(ctx):
 
 
 def run(ctx):
+    # "checkpoints and reloads" keep the tracker's state only if a checkpoint never deletes the file it has just written (C06.R10)
+    from . import c06
+    c06.r10_no_self_delete(ctx, c06.CFG)
     r3_checkpoint_whole_table(ctx)
     r1_conservation(ctx)
     r2_release_protocol(ctx)
